@@ -231,21 +231,41 @@ func InitB() B {
 	return B{}
 }
 '''
+# the other packages of a shared invocation use the same type names, value expressions and imports as the programs under test:
+# whatever state the generator keeps between packages (names, value variables, import aliases) would show in app's output
 OTHER = '''package %(name)s
 
-type T struct{ N int }
+import (
+	"time"
 
-func New() T { return T{1} }
+	xutil "%(modp)s/x/util"
+)
+
+type A struct{ V int }
+type B struct{ V string }
+type T struct {
+	A A
+	B B
+	D time.Duration
+	U *xutil.Alpha
+}
+
+func New(a A, b B, d time.Duration, u *xutil.Alpha) T { return T{a, b, d, u} }
 '''
 OTHER_WIRE = '''//go:build wireinject
 // +build wireinject
 
 package %(name)s
 
-import "github.com/google/wire"
+import (
+	"time"
+
+	"github.com/google/wire"
+	xutil "%(modp)s/x/util"
+)
 
 func Init() T {
-	wire.Build(New)
+	wire.Build(New, wire.Value(A{V: 9}), wire.Value(B{V: "o"}), wire.Value(time.Second), xutil.NewAlpha, wire.Value("name"))
 	return T{}
 }
 '''
@@ -298,8 +318,8 @@ def setup(root, program, cfg):
     write(os.path.join(proj, 'y', 'util', 'util.go'), UTIL % {'T': 'Beta'})
     if cfg['company'] == 'with-others':
         for n in ('aaa', 'mmm', 'zzz'):
-            write(os.path.join(proj, n, 'lib.go'), OTHER % {'name': n})
-            write(os.path.join(proj, n, 'wire.go'), OTHER_WIRE % {'name': n})
+            write(os.path.join(proj, n, 'lib.go'), OTHER % {'name': n, 'modp': MODP})
+            write(os.path.join(proj, n, 'wire.go'), OTHER_WIRE % {'name': n, 'modp': MODP})
     if layout == 'module-vendor':
         rc, so, se, dt = core.run(['go', 'mod', 'vendor'], cwd=proj, env=env, timeout=300)
         if rc != 0:
